@@ -225,8 +225,7 @@ fn lazy_check<const NI: usize, const N: usize, const NP: u8>() {
 }
 //@ heavy=1
 harness!(c14_lazy_sink, 9, { lazy_check::<2, 2, 1>(); });
-//@ heavy=1 tier=thorough
-harness!(c14_lazy_sink_3, 12, { lazy_check::<3, 3, 2>(); });
+// (lazy_check::<3, 3, 2> needs > 20 min / > 12 GB in CBMC: not kept, DESIGN §7 budget honesty)
 
 // ---------------------------------------------------------------------------------- send_stream / LazySource
 use crate::script::{Src, T_END, T_PEND, T_READY};
